@@ -2675,7 +2675,7 @@ tree_target_is_same_as_parent(struct tree *t, const struct stat *st)
 static int
 tree_current_is_symblic_link_target(struct tree *t)
 {
-	static const struct stat *lst, *st;
+	const struct stat *lst, *st;
 
 	lst = tree_current_lstat(t);
 	st = tree_current_stat(t);
